@@ -96,11 +96,24 @@ package oidc
 //@   ensures decoded: err == nil ==> tgtvalid(claims)
 //@   ensures fail-nil: splitCount(tokenString, ".") != 3 ==> err != nil && result0 == nil
 
+// allowedAlg is written from the statement: the algorithm is in the caller's allow-list, or - when
+// the caller configured none - one of the three defaults RS256, ES256, PS256.
+//@ spec func allowedAlg(alg string, algs []string) bool = (len(algs) > 0 && contains(algs, alg)) || (len(algs) == 0 && (alg == "RS256" || alg == "ES256" || alg == "PS256"))
+
+//@ loop oidc.toJoseSignatureAlgorithms#1
+//@   invariant copied: forall j int :: 0 <= j && j <= rangeindex ==> out[j] == algorithms[j]
+//@   invariant length: len(out) == len(algorithms)
+
 //@ func oidc.CheckSignature
 //@   ensures foreign-err: !moderr(err)
 //@   requires valid(claims) && valid(set)
 //@   modifies os(claims), os(set)
 //@   defines checked: err == nil ==> sigChecked(token, bstr(payload), set, supportedSigAlgs)
+//@   ensures parsed: err == nil ==> callres("github.com/go-jose/go-jose/v4.ParseSigned", 1) == nil
+//@        && joseParsed(token, callres("github.com/go-jose/go-jose/v4.ParseSigned", 0))
+//@   ensures single-signature: err == nil ==> len(callres("github.com/go-jose/go-jose/v4.ParseSigned", 0).Signatures) == 1
+//@   ensures alg-allowed: err == nil ==> allowedAlg(callres("github.com/go-jose/go-jose/v4.ParseSigned", 0).Signatures[0].Header.Algorithm, supportedSigAlgs)
+//@   ensures key-set-accepted-this-payload: err == nil ==> keySetAccepted(set, callres("github.com/go-jose/go-jose/v4.ParseSigned", 0), bstr(payload))
 //@   ensures claims-kept: as(claims, "Claims").GetIssuer() == old(as(claims, "Claims").GetIssuer())
 //@      && as(claims, "Claims").GetSubject() == old(as(claims, "Claims").GetSubject())
 //@      && as(claims, "Claims").GetAudience() == old(as(claims, "Claims").GetAudience())
@@ -127,3 +140,38 @@ package oidc
 //@   ensures non-nil: result != nil
 //@   ensures found: asErr("*Error", err) != nil ==> result == asErr("*Error", err)
 //@   ensures wrapped: asErr("*Error", err) == nil ==> fresh(result) && result.ErrorType == ServerError && result.Description == description && result.Parent == err && !result.redirectDisabled
+
+// ---- C02: key selection (pkg/oidc/keyset.go) ----
+
+// algFits is written from the statement: the key's type fits the signature algorithm family
+// (RS*/PS* -> RSA, ES* -> ECDSA, EdDSA -> Ed25519; everything else, e.g. HS* or none, fits no key).
+//@ spec func algFits(key any, alg string) bool = ((hasPrefix(alg, "RS") || hasPrefix(alg, "PS")) && typeis(key, "*rsa.PublicKey"))
+//@      || (hasPrefix(alg, "ES") && typeis(key, "*ecdsa.PublicKey")) || (alg == "EdDSA" && typeis(key, "ed25519.PublicKey"))
+// usableKey: declared use permits the requested use (an absent use is tolerated) and the type fits.
+//@ spec func usableKey(k jose.JSONWebKey, use string, alg string) bool = (k.Use == use || k.Use == "") && algFits(k.Key, alg)
+// kidCandidate: usable and not contradicted by the key IDs (one of them is absent).
+//@ spec func kidCandidate(k jose.JSONWebKey, keyID string, use string, alg string) bool = usableKey(k, use, alg) && (k.KeyID == "" || keyID == "")
+//@ spec func kidExact(k jose.JSONWebKey, keyID string, use string, alg string) bool = usableKey(k, use, alg) && keyID != "" && k.KeyID == keyID
+
+//@ loop oidc.FindMatchingKey#1
+//@   invariant members: forall m int :: 0 <= m && m < len(validKeys) ==> exists i int :: 0 <= i && i <= rangeindex && keys[i] == validKeys[m]
+//@   invariant only-candidates: forall m int :: 0 <= m && m < len(validKeys) ==> kidCandidate(validKeys[m], keyID, use, expectedAlg) && !kidExact(validKeys[m], keyID, use, expectedAlg)
+//@   invariant no-exact-yet: forall i int :: 0 <= i && i <= rangeindex ==> !kidExact(keys[i], keyID, use, expectedAlg)
+//@   invariant none-so-far: len(validKeys) == 0 ==> forall i int :: 0 <= i && i <= rangeindex ==> !kidCandidate(keys[i], keyID, use, expectedAlg)
+//@   invariant single-so-far: len(validKeys) == 1 ==> forall i int :: 0 <= i && i <= rangeindex && kidCandidate(keys[i], keyID, use, expectedAlg) ==> keys[i] == validKeys[0]
+//@ func oidc.FindMatchingKey
+//@   modifies nothing
+//@   ensures member: err == nil ==> exists i int :: 0 <= i && i < len(keys) && keys[i] == key
+//@   ensures usable: err == nil ==> usableKey(key, use, expectedAlg)
+//@   ensures kid-consistent: err == nil ==> kidExact(key, keyID, use, expectedAlg) || kidCandidate(key, keyID, use, expectedAlg)
+//@   ensures no-guessing: err == nil && !kidExact(key, keyID, use, expectedAlg) ==> forall i int :: 0 <= i && i < len(keys) && kidCandidate(keys[i], keyID, use, expectedAlg) ==> keys[i] == key
+//@   ensures none: err == ErrKeyNone ==> forall i int :: 0 <= i && i < len(keys) ==> !kidCandidate(keys[i], keyID, use, expectedAlg) && !kidExact(keys[i], keyID, use, expectedAlg)
+//@   ensures kind: err != nil ==> err == ErrKeyNone || err == ErrKeyMultiple
+
+// Header fields of the (first) signature of a parsed JWS.
+//@ spec func jwsAlg(jws *jose.JSONWebSignature) string = ite(len(jws.Signatures) > 0, jws.Signatures[0].Header.Algorithm, "")
+//@ spec func jwsKid(jws *jose.JSONWebSignature) string = ite(len(jws.Signatures) > 0, jws.Signatures[0].Header.KeyID, "")
+//@ func oidc.GetKeyIDAndAlg
+//@   requires jws != nil
+//@   modifies nothing
+//@   ensures header: result0 == jwsKid(jws) && result1 == jwsAlg(jws)
